@@ -37,6 +37,14 @@ theorem noFloatm_map {α : Type} (k : α → Bytes) (f : α → JV) : ∀ xs : L
     simp only [List.map_cons, Spec.WF.noFloatm, Bool.and_eq_true]
     exact ⟨h x (by simp), noFloatm_map k f xs fun y hy => h y (by simp [hy])⟩
 
+theorem validUtf8_ascii : ∀ bs : Bytes, (∀ c ∈ bs, c < 0x80) → Spec.Utf8.validUtf8 bs = true
+  | [], _ => rfl
+  | b :: r, h => by
+    have hb := h b (by simp)
+    unfold Spec.Utf8.validUtf8
+    rw [if_pos hb]
+    exact validUtf8_ascii r fun c hc => h c (by simp [hc])
+
 theorem validUtf8_scalar (c : Nat) (h : isScalar c = true) : Spec.Utf8.validUtf8 (Spec.Denote.utf8 c) = true := by
   apply SJ.Proofs.Utf8.validUtf8_utf8
   simp only [isScalar, Bool.or_eq_true, Bool.and_eq_true, decide_eq_true_eq] at h
@@ -45,7 +53,25 @@ theorem validUtf8_scalar (c : Nat) (h : isScalar c = true) : Spec.Utf8.validUtf8
 theorem validUtf8_keyText (k : KeyKind) (a : TVal) (hk : keyFrag k = true) (h : wfKey k a = true) :
     Spec.Utf8.validUtf8 (Model.TypedSer.keyText k a) = true := by
   cases k with
-  | int w => simp [keyFrag] at hk
+  | int w =>
+    cases a with
+    | int n =>
+      simp only [Model.TypedSer.keyText]
+      apply validUtf8_ascii
+      intro c hc
+      unfold Spec.Number.decimal at hc
+      have hdig : ∀ m, ∀ x ∈ Spec.Number.natDigits m, x < 0x80 := by
+        intro m x hx
+        have := SJ.Proofs.RoundTripNum.isDigits_natDigits m x hx
+        have h2 := UInt8.le_iff_toNat_le.1 this.2
+        change x.toNat ≤ 57 at h2
+        exact UInt8.lt_iff_toNat_lt.2 (by change x.toNat < 128; omega)
+      split at hc
+      · rcases List.mem_cons.mp hc with rfl | hc
+        · decide
+        · exact hdig _ c hc
+      · exact hdig _ c hc
+    | _ => simp [wfKey] at h
   | string => cases a <;> simp_all [wfKey, Model.TypedSer.keyText]
   | bool =>
     cases a <;> simp_all [wfKey, Model.TypedSer.keyText]
